@@ -121,20 +121,27 @@ def run_head(case: Dict[str, Any]) -> CaseInfo:
 def streams_case(draw: Any) -> Dict[str, Any]:
     k = draw(st.sampled_from([1, 2, 3, 5, 10]))
     return {"kind": "streams", "k": k, "extra": draw(st.sampled_from([0, 0, 1, 2])),
-            "seg": draw(segmentation()), "sched": draw(st.integers(0, 999))}
+            "seg": draw(segmentation()), "sched": draw(st.integers(0, 999)),
+            # over an h2c upgrade the upgraded request is the first of the concurrent streams
+            "opening": draw(st.sampled_from(["prior", "prior", "h2c"]))}
 
 
 def run_streams(case: Dict[str, Any]) -> CaseInfo:
     k, extra = case["k"], case["extra"]
     b = H2Builder()
     n = k + extra
-    for i in range(n):
+    h2c = case.get("opening") == "h2c"
+    for i in range(1 if h2c else 0, n):
         b.request(1 + 2 * i, f"/hold{i}".encode())
     data = bytes(b.out)
     cfg = {"keep_alive_timeout": T_BIG, "h2_max_concurrent_streams": k}
 
     async def sc(env: Any) -> Any:
         conn = env.connect()
+        if h2c:
+            conn.send(b"GET /hold0 HTTP/1.1\r\nHost: example.com\r\nConnection: Upgrade, "
+                      b"HTTP2-Settings\r\nUpgrade: h2c\r\nHTTP2-Settings: AAMAAABkAAQAAP__\r\n\r\n")
+            await env.settle(5.0)
         await deliver(env, conn, data, case["seg"])
         await env.settle(100000.0)
         conn.eof()
@@ -147,7 +154,13 @@ def run_streams(case: Dict[str, Any]) -> CaseInfo:
         tag = {"backend": be, "limit": "h2_max_concurrent_streams"}
         if conn.handler_exc is not None:
             raise Violation("handler_exception", repr(conn.handler_exc), **tag)
-        acct = FrameAccounting().decode(conn.received())
+        rx = conn.received()
+        if h2c:
+            end = rx.find(b"\r\n\r\n")
+            if not rx.startswith(b"HTTP/1.1 101") or end < 0:
+                raise Violation("h2c_upgrade_failed", repr(rx[:80]), **tag)
+            rx = rx[end + 4:]
+        acct = FrameAccounting().decode(rx)
         if acct.error:
             raise Violation("malformed_frames", acct.error, **tag)
         adv = [s.get(3) for s in acct.settings if 3 in s]
